@@ -79,6 +79,9 @@ def make_fault(sym):
     }[sym]()
 
 
+_made = []   # injected exception objects of the scenario in progress (their tracebacks are cut at the end)
+
+
 class Plan:
     """Outcome the environment has chosen for one attempt."""
 
@@ -86,6 +89,8 @@ class Plan:
         self.sym, self.ordinal = sym, ordinal
         self.exc = make_fault(sym) if sym in CONNECT_FAULTS + SEND_FAULTS + RECV_FAULTS + BODY_FAULTS else None
         self.used_send = False
+        if self.exc is not None:
+            _made.append(self.exc)
 
 
 class PSocket(vnet.VSocket):
@@ -273,6 +278,15 @@ def make_pool(cfg, rec):
     return pm, pm.connection_from_url("http://h.test/")
 
 
+def _cut():
+    """Injected exception objects are kept for identity checks only: drop their tracebacks (the frames in them
+    would keep responses and the pool alive behind the caller's back)."""
+    for x in _made:
+        x.__traceback__ = None
+        x.__context__ = None
+    del _made[:]
+
+
 def _classify(exc, injected):
     from urllib3.exceptions import HTTPError
     if any(exc is x for x in injected):
@@ -345,6 +359,7 @@ def run_scenario(sc):
                     r = None
                 rec.atts = None
                 pnet.cur = None
+                _cut()
             elif op == "disp":
                 r = resps.pop(st["id"], None)
                 if r is None:
@@ -367,6 +382,7 @@ def run_scenario(sc):
                     obs["disps"].append({"id": st["id"], "how": st["how"], "out": "ok"})
                 done.append(r)
                 r = None
+                _cut()
             elif op == "cut":
                 items = [c for c in list(pool.pool.queue) if c is not None and rec.sock_of(c)]
                 k = st["id"]
@@ -424,7 +440,15 @@ def run_scenario(sc):
         obs["probe"] = [nle, extra]
         pool.close()
         pool = pm = None
-    return {"events": encode(log), "obs": obs}
+    # the injected exceptions carry tracebacks whose frames reference the pool: cut them, or the pool (kept
+    # reachable by its own weakref.finalize entry through queue -> recorder -> plan -> exception) never dies
+    _cut()
+    pnet.cur = None
+    del pnet.injected[:]
+    del pnet.faults[:]
+    events = encode(log)
+    del log[:]
+    return {"events": events, "obs": obs}
 
 
 # ------------------------------------------------------------------------------------------------
